@@ -8,6 +8,8 @@ PROP = "C06"
 HEADER = ("From Coq Require Import List String Bool.\nImport ListNotations.\nLocal Open Scope string_scope.\n"
           "Local Open Scope list_scope.\nFrom DV Require Import gen.Tables Cfg.Model Rename.Model.")
 PATTERNS = ["ns_{0}", "{0}", "{0}_v2", "pre_{0}_post", "pure_rename_%d", "x{0}y", "Cap_{0}"]
+# whole-name patterns that are reserved words somewhere: an ABI name is a linker symbol, it is never escaped
+KEYWORD_NAMES = ["complex", "synchronized", "atomic_cancel", "concept", "typeof_unqual", "register", "signed", "explicit", "namespace", "template"]   # none is a Rust keyword
 
 
 def gen_modules(ctx):
@@ -69,7 +71,7 @@ def rust_attr(a):
 def bridge(mods):
     s = ""
     for mi, m in enumerate(mods):
-        s += "#[diplomat::bridge]\n" + "".join(f'#[diplomat::abi_rename = "{p}"]\n' for p in m["abi"]) + f"mod ffi{mi} {{\n"
+        s += "#[diplomat::bridge]\n" + "".join(f'#[diplomat::abi_rename = "{p}"]\n' for p in m["abi"]) + f"mod {m.get('modname', 'ffi%d' % mi)} {{\n"
         for t in m["types"]:
             ab = "".join(f'    #[diplomat::abi_rename = "{p}"]\n' for p in t["abi"]) + "".join("    " + rust_attr(a) for a in t["attrs"])
             if t["kind"] == "opaque":
@@ -91,6 +93,8 @@ def bridge(mods):
         if m["nested"]:
             # a plain module nested in a bridge: not analysed by the macro nor by the tool
             s += f"    mod inner{mi} {{\n        pub struct Hidden{mi};\n        impl Hidden{mi} {{ pub fn step(&self) {{}} }}\n    }}\n"
+        for cm in m.get("children", []):
+            s += "".join("    " + l + "\n" for l in bridge([cm]).rstrip("\n").split("\n"))
         s += "}\n"
     return s
 
@@ -100,7 +104,10 @@ def coq_mods(mods):
         return clist([f"({coq_f(f)}, {'PDisable' if p == 'disable' else 'PRename ' + cstr(p[7:])})" for f, p in l])
     cs = lambda l: clist([cstr(x) for x in l])
     out = []
+    flat = []
     for m in mods:
+        flat.append(m); flat += m.get("children", [])
+    for m in flat:
         tys = []
         for t in m["types"]:
             ims = [f"mkImpl {cs(im['abi'])} {cattrs(im['attrs'])} " +
@@ -169,6 +176,20 @@ def check(ctx, replay=None):
             mods[0]["types"][0]["kind"] = "openum"; mods[0]["types"][0]["abi"] = ["kind_{0}_v2"]
             if len(mods[0]["types"]) > 1:
                 mods[0]["types"][1]["kind"] = "opaque"; mods[0]["types"][1]["abi"] = ["st_{0}"]
+        if bi % 3 == 2:
+            # always present: a bridge module nested in a bridge module that carries a pattern, and whole-name patterns that are keywords somewhere
+            mods[0]["abi"] = ["outer_{0}"]
+            kw = ctx.rng.sample(KEYWORD_NAMES, 3)
+            mods[0]["children"] = [{"abi": [], "attrs": [], "nested": False, "modname": f"inner{bi}", "types": [
+                {"name": f"In{bi}", "kind": "opaque", "abi": [], "attrs": [], "impls": [{"abi": [], "attrs": [], "methods": [
+                    {"name": f"meinA{bi}", "abi": [], "attrs": [], "static": False}, {"name": f"meinB{bi}", "abi": [kw[0]], "attrs": [], "static": True}]}]},
+                {"name": f"Ik{bi}", "kind": "opaque", "abi": [kw[1]], "attrs": [], "impls": [{"abi": [], "attrs": [], "methods": [
+                    {"name": f"meinC{bi}", "abi": [kw[2]], "attrs": [], "static": False}]}]}]}]
+        if bi % 3 == 1:
+            # always present: a module-level pattern over an opaque type (its destructor is always exported) with a method
+            mods[0]["abi"] = ["mo_{0}_v1"]; mods[0]["types"][0]["kind"] = "opaque"
+            if not any(im["methods"] for im in mods[0]["types"][0]["impls"]):
+                mods[0]["types"][0]["impls"].append({"abi": [], "attrs": [], "methods": [{"name": f"mefix{bi}", "abi": [], "attrs": [], "static": False}]})
         mods = dedupe_disables(mods, support, others)
         if replay and "modules" in replay.get("replay", {}):
             mods = replay["replay"]["modules"]
